@@ -14,6 +14,7 @@
 package conn
 
 import (
+	"encoding/binary"
 	"errors"
 	"fmt"
 	"net"
@@ -51,13 +52,30 @@ func (rb RemoteBitfields) unmarshalBinary(rbBytes map[string][]byte) error {
 		if err != nil {
 			return fmt.Errorf("peer id: %s", err)
 		}
-		bitfield := bitset.New(0)
-		if err := bitfield.UnmarshalBinary(bitfieldBytes); err != nil {
+		bitfield, err := unmarshalBitfield(bitfieldBytes)
+		if err != nil {
 			return err
 		}
 		rb[peerID] = bitfield
 	}
 	return nil
+}
+
+// unmarshalBitfield decodes a bitfield sent by a remote peer. The encoding
+// starts with the number of bits, which bitset allocates before reading the
+// words; it is therefore checked against the bytes actually received.
+func unmarshalBitfield(b []byte) (*bitset.BitSet, error) {
+	if len(b) < 8 {
+		return nil, fmt.Errorf("bitfield too short: %d bytes", len(b))
+	}
+	if n := binary.BigEndian.Uint64(b); n > 8*uint64(len(b)-8) {
+		return nil, fmt.Errorf("bitfield declares %d bits but carries %d bytes", n, len(b)-8)
+	}
+	bitfield := bitset.New(0)
+	if err := bitfield.UnmarshalBinary(b); err != nil {
+		return nil, err
+	}
+	return bitfield, nil
 }
 
 // handshake contains the same fields as a protobuf bitfield message, but with
@@ -114,8 +132,8 @@ func handshakeFromP2PMessage(m *p2p.Message) (*handshake, error) {
 	if err != nil {
 		return nil, fmt.Errorf("name: %s", err)
 	}
-	bitfield := bitset.New(0)
-	if err := bitfield.UnmarshalBinary(bitfieldMsg.BitfieldBytes); err != nil {
+	bitfield, err := unmarshalBitfield(bitfieldMsg.BitfieldBytes)
+	if err != nil {
 		return nil, err
 	}
 	remoteBitfields := make(RemoteBitfields)
